@@ -77,6 +77,11 @@ pub const ROOT_FENS: &[(&str, &str)] = &[
     ("check", "4r1k1/8/8/8/8/8/4R3/r2RK3 w - - 0 1"),
     ("check", "4r1k1/8/8/8/1b6/8/3NR3/4K3 w - - 0 1"),
     ("check", "3q2k1/8/8/8/b7/8/2B5/3BK3 w - - 0 1"),
+    // two pinned sliders of one kind on different ranks, one of them immobile (pinned across its
+    // own movement), in both scan orders
+    ("check", "4r1k1/8/8/b7/4R3/2R5/8/4K3 w - - 0 1"),
+    ("check", "4r1k1/8/8/8/1b6/4R3/3R4/4K3 w - - 0 1"),
+    ("check", "7k/8/8/8/q7/1B6/8/3KB2r w - - 0 1"),
     // --- terminal neighbourhoods
     ("mate", "6k1/5ppp/8/8/8/8/8/R3K3 w Q - 0 1"),
     ("mate", "7k/5Q2/8/8/8/8/8/K7 w - - 0 1"),
